@@ -236,6 +236,7 @@ class Monitor(object):
         self.histories = []         # snapshots to validate (final + a few)
         self.last_hist_len = 0
         self.step_no = 0
+        self.acked_ids = set()
 
     def tagcode(self, fr):
         return fr.get("ch", 0) * 100000 + fr["tag"]
@@ -256,8 +257,15 @@ class Monitor(object):
                 cur.append(["a", self.tagcode(fr)])
                 if fr.get("unknown"):
                     self.problems.append(("C03.ack_once", {"step": self.step_no, "frame": {k: v for k, v in fr.items() if k != "body"}}))
+                if fr.get("message_id"):
+                    self.acked_ids.add(fr["message_id"])
             elif fr["op"] == "publish":
                 cur.append(["p"])
+                # a task request carries the id of the event it works for: that event is held until the reply, so a
+                # request leaving after its event was acknowledged is a consequence issued after the acknowledgement
+                cid = (fr.get("props") or {}).get("correlation_id")
+                if fr.get("exchange") == "" and cid and cid in self.acked_ids and not str(fr.get("routing_key", "")).startswith("asl_workflow"):
+                    self.problems.append(("C03.request_after_ack", {"step": self.step_no, "queue": fr.get("routing_key"), "correlation_id": cid}))
         self.ledger += cur
         if step is not None:
             self.steps.append(cur)
